@@ -23,9 +23,9 @@
    The model is of the tree WITH the repairs F24 (zero-hash used as "unset"
    sentinel), F25 (only the first kind of bad peers was banned per mismatching
    index) and F26 (cfheaders length / alignment never checked), see
-   known_findings/C03.json.  F15 (a peer lying only in its checkpoint list is
-   never identified) is modelled as it is; the ghost flag of [resolve_conflict]
-   marks it. *)
+   known_findings/C03.json, and F15 (a peer lying only in its checkpoint list
+   was never identified; now its list is checked against the cfheaders it
+   serves, [cp_contradicts]). *)
 From stdpp Require Import gmap list.
 From Coq Require Import ZArith Lia.
 From Verif Require Import S1.Model.
@@ -353,9 +353,8 @@ Definition choose {A} (hint : Z) (l : list (Z * A)) : option (Z * A) :=
   end.
 
 (* resolveConflict.  hard = ValidateCFHeader's table for this network.
-   Result: banned peers (in order of the BanPeer calls), the checkpoint list
-   returned or None (error), and the ghost flag: 1 = returned "got mismatched
-   checkpoints" (or the baseline error) without having banned anybody. *)
+   Result: banned peers (in order of the BanPeer calls) and the checkpoint
+   list returned or None (error). *)
 Definition peer_hard_bad (hard : Z -> option Z) (cp : list Z) : bool :=
   List.existsb (fun iv : nat * Z =>
       match hard (u32 ((Z.of_nat (fst iv) + 1) * INTERVAL)) with
@@ -369,42 +368,64 @@ Definition peer_hard_bad (hard : Z -> option Z) (cp : list Z) : bool :=
    fast_ix_equiv). *)
 Definition full_ix (hs : list (Z * cfmsg)) (n : Z) : list nat := seq 0 (zn n).
 
+(* F15 repair: the checkpoint list [l] of a peer contradicts the cfheaders [m]
+   it served for the interval starting at checkpoint index [d]: the header at
+   the end of the interval, chained from the message's previous header over
+   its first INTERVAL+1 filter hashes, is not the checkpoint l[d]. *)
+Definition cp_contradicts (d : Z) (l : list Z) (m : cfmsg) : bool :=
+  match zget l d with
+  | None => false
+  | Some c =>
+    if zlen (m_hashes m) <? INTERVAL + 1 then false
+    else negb (chain_last (m_prev m) (take (zn (INTERVAL + 1)) (m_hashes m)) =? c)
+  end.
+
+Definition msg_of (q : Z) (hs : list (Z * cfmsg)) : option cfmsg :=
+  match List.find (fun c => fst c =? q) hs with Some c => Some (snd c) | None => None end.
+
 Definition resolve_conflict_ix (ix : list (Z * cfmsg) -> Z -> list nat)
            (hard : Z -> option Z) (v : cview) (env : denv)
            (raws : list rawresp) (hint : Z) (cps : list (Z * list Z))
-  : list Z * option (list Z) * Z :=
+  : list Z * option (list Z) :=
   let bad0 := List.map fst (List.filter (fun p => peer_hard_bad hard (snd p)) cps) in
   let cps1 := remove_peers bad0 cps in
   match cps1 with
-  | [] => (bad0, None, 0)
+  | [] => (bad0, None)
   | _ =>
     match check_sanity cps1 v with
-    | SaneErr => (bad0, None, 0)
-    | SaneAll => (bad0, option_map snd (choose hint cps1), 0)
+    | SaneErr => (bad0, None)
+    | SaneAll => (bad0, option_map snd (choose hint cps1))
     | SaneDiff d =>
       let cps2 := List.filter (fun p => negb (zlen (snd p) <? d)) cps1 in
       match cps2 with
-      | [] => (bad0, None, 0)
+      | [] => (bad0, None)
       | _ =>
         let startH := u32 (d * INTERVAL) in
         let '(hs, n) := get_headers v startH raws in
         if negb (all_eq (List.map (fun p => m_prev (snd p)) hs))
-        then (bad0, None, match bad0 with [] => 2 | _ => 0 end) else
+        then (bad0, None) else
         match settle_all env startH hs (ix hs n) [] with
-        | (None, bans) => (bad0 ++ bans, None, 0)
+        | (None, bans) => (bad0 ++ bans, None)
         | (Some hs', bans) =>
           let cps3 := remove_peers bans cps2 in
           let silent := List.map fst (List.filter (fun p => negb (mem (fst p) (List.map fst hs'))) cps3) in
           let cps4 := remove_peers silent cps3 in
-          let allbans := bad0 ++ bans ++ silent in
-          match check_sanity cps4 v with
-          | SaneErr => (allbans, None, 0)
+          (* F15 repair: peers whose checkpoint contradicts their own headers *)
+          let cpliars := List.map fst (List.filter (fun p =>
+                            match msg_of (fst p) hs' with
+                            | Some m => cp_contradicts d (snd p) m
+                            | None => false
+                            end) cps4) in
+          let cps5 := remove_peers cpliars cps4 in
+          let allbans := bad0 ++ bans ++ silent ++ cpliars in
+          match check_sanity cps5 v with
+          | SaneErr => (allbans, None)
           | SaneAll =>
-            match choose hint cps4 with
-            | Some p => (allbans, Some (snd p), 0)
-            | None => (allbans, None, 0)
+            match choose hint cps5 with
+            | Some p => (allbans, Some (snd p))
+            | None => (allbans, None)
             end
-          | SaneDiff _ => (allbans, None, match allbans with [] => 1 | _ => 0 end)
+          | SaneDiff _ => (allbans, None)
           end
         end
       end
@@ -412,6 +433,24 @@ Definition resolve_conflict_ix (ix : list (Z * cfmsg) -> Z -> list nat)
   end.
 
 Definition resolve_conflict := resolve_conflict_ix full_ix.
+
+(* cfHandler's loop around resolveConflict ("for len(goodCheckpoints) == 0"):
+   every round has the checkpoint lists (capped at the header tip) of the
+   peers connected then, their getcfheaders answers and the filter
+   environment; the loop ends with the first non-empty list returned.  The
+   3 s pause, the quit channel and the re-fetch of the lists are not part of
+   the model: the lists of a round are data.  Result: all bans, the list. *)
+Record round := { rd_cps : list (Z * list Z); rd_raws : list rawresp; rd_env : denv; rd_hint : Z }.
+
+Fixpoint cf_retry (hard : Z -> option Z) (v : cview) (rounds : list round) : list Z * option (list Z) :=
+  match rounds with
+  | [] => ([], None)
+  | r :: rest =>
+    match resolve_conflict hard v (rd_env r) (rd_raws r) (rd_hint r) (rd_cps r) with
+    | (bans, Some (x :: l)) => (bans, Some (x :: l))
+    | (bans, _) => let '(bans', res) := cf_retry hard v rest in (bans ++ bans', res)
+    end
+  end.
 
 (* getUncheckpointedCFHeaders up to the message it writes *)
 Inductive ures := UErr | UNoop | UWrite (m : cfmsg).
